@@ -215,7 +215,7 @@ def model_eq(a, b):
         for f, _ in a.fields():
             if _ntok(a.tok[f]) != _ntok(b.tok[f]):
                 return False
-    if a.meta.d != b.meta.d or a.visual.d != b.visual.d:
+    if not _deq(a.meta.d, b.meta.d) or not _deq(a.visual.d, b.visual.d):
         return False
     return True
 
@@ -476,7 +476,59 @@ def build_invalid(rec):
     return build(rec)
 
 
-def draw_dict_items(rng, kind, nmax=3):
+# array-valued entries: values without a single truth value.  Their
+# near-twins differ in shape only (and would broadcast to equal elements).
+# A one-element array and the scalar of the same value are NOT paired: numpy
+# itself calls those equal, and the property does not say otherwise.
+ARRAY_MENU = {
+    'visual': {'dashes': [{'t': 'arr', 'v': [4.0, 4.0]},
+                          {'t': 'arr', 'v': [4.0]},
+                          {'t': 'arr', 'v': [4.0, 2.0]},
+                          {'t': 'arr', 'v': []}]},
+    'meta': {'range': [{'t': 'q', 'v': [5.0, 5.0], 'u': 'GHz'},
+                       {'t': 'q', 'v': [5.0, 2.0], 'u': 'GHz'},
+                       {'t': 'q', 'v': [5.0], 'u': 'GHz'}]},
+}
+
+
+def _veq(a, b):
+    """Value equality that also works for array values: same shape and all
+    elements equal."""
+    if isinstance(a, np.ndarray) or isinstance(b, np.ndarray):
+        try:
+            return np.shape(a) == np.shape(b) and \
+                bool(np.all(np.asarray(a == b)))
+        except Exception:
+            return False
+    if isinstance(a, (list, tuple)) and type(a) is type(b):
+        return len(a) == len(b) and all(_veq(x, y) for x, y in zip(a, b))
+    return a == b
+
+
+def _deq(d1, d2):
+    return d1.keys() == d2.keys() and all(_veq(d1[k], d2[k]) for k in d1)
+
+
+def _has_array_entry(obj, depth=0):
+    """Does a region (or an operand of a compound) hold a meta/visual entry
+    that is an array with other than one element?"""
+    if depth > 4:
+        return False
+    for f in ('meta', 'visual'):
+        d = getattr(obj, f, None)
+        if isinstance(d, dict):
+            for v in d.values():
+                if isinstance(v, np.ndarray) and v.size != 1:
+                    return True
+    return any(_has_array_entry(getattr(obj, r, None), depth + 1)
+               for r in ('region1', 'region2') if hasattr(obj, r))
+
+
+def draw_dict_items(rng, kind, nmax=3, arrays=False):
+    if arrays and rng.chance(0.12):
+        k = rng.pick(sorted(ARRAY_MENU[kind]))
+        base = [x for x in draw_dict_items(rng, kind, 2) if x[0] != k]
+        return base + [[k, rng.pick(ARRAY_MENU[kind][k])]]
     menu = META_MENU if kind == 'meta' else VISUAL_MENU
     hot = gen.META_HOT if kind == 'meta' else gen.VISUAL_HOT
     hot = [k for k in hot if k in menu]
@@ -500,7 +552,20 @@ def perturb_items(rng, kind, current):
     replaced by another key (same number of entries), a None value in place
     of a missing key and vice versa.  Returns None if no variant applies."""
     menu = META_MENU if kind == 'meta' else VISUAL_MENU
-    items = [[k, _recipe_of(menu, k, v)] for k, v in current.items()]
+    amenu = ARRAY_MENU[kind]
+    arr_keys = [k for k in current if k in amenu
+                and any(_veq(build(r), current[k]) for r in amenu[k])]
+    if arr_keys and rng.chance(0.7):
+        # an array-valued entry replaced by its near-twin
+        k = rng.pick(sorted(arr_keys))
+        alts = [r for r in amenu[k] if not _veq(build(r), current[k])]
+        others = [[kk, _recipe_of(dict(menu, **amenu), kk, v)]
+                  for kk, v in current.items() if kk != k]
+        if any(r is _MISSING for _, r in others):
+            return None
+        return others + [[k, rng.pick(alts)]]
+    items = [[k, _recipe_of(dict(menu, **amenu), k, v)]
+             for k, v in current.items()]
     if any(r is _MISSING for _, r in items):
         return None
     absent = [k for k in sorted(menu) if k not in current]
@@ -515,7 +580,7 @@ def perturb_items(rng, kind, current):
         if len(items) < 2:
             return None
         i, j = rng.sample(range(len(items)), 2)
-        if build(items[i][1]) == build(items[j][1]):
+        if _veq(build(items[i][1]), build(items[j][1])):
             return None
         items[i][1], items[j][1] = items[j][1], items[i][1]
         return items
@@ -526,7 +591,8 @@ def perturb_items(rng, kind, current):
     i = rng.randrange(len(items)) if items else 0
     if how == 'change':
         k = items[i][0]
-        alts = [v for v in menu[k] if build(v) != current[k]]
+        alts = [v for v in menu.get(k, []) + amenu.get(k, [])
+                if not _veq(build(v), current[k])]
         if not alts:
             return None
         items[i] = [k, rng.pick(alts)]
@@ -555,7 +621,7 @@ def _recipe_of(menu, key, value):
     menu recipes, so one always exists unless the dict was edited by hand)."""
     for r in menu.get(key, []):
         try:
-            if build(r) == value and type(build(r)) is type(value):
+            if _veq(build(r), value) and type(build(r)) is type(value):
                 return r
         except Exception:
             pass
@@ -805,9 +871,11 @@ class Machine:
     def new_simple(self, rng, cls=None, with_dicts=0.7):
         cls = cls or rng.pick(sorted(gen.ALL_CLASSES))
         toks = gen.draw_tokens(rng, cls)
-        meta = draw_dict_items(rng, 'meta') if rng.chance(with_dicts) else []
-        visual = draw_dict_items(rng, 'visual') if rng.chance(with_dicts) \
-            else []
+        arrays = self.mode == 'c16'
+        meta = draw_dict_items(rng, 'meta', arrays=arrays) \
+            if rng.chance(with_dicts) else []
+        visual = draw_dict_items(rng, 'visual', arrays=arrays) \
+            if rng.chance(with_dicts) else []
         near = {}
         params = {}
         for f, kind in gen.ALL_CLASSES[cls]:
@@ -816,9 +884,19 @@ class Machine:
             if nr:
                 near[f] = True
         import regions
+        extra = {}
+        if cls == 'PolygonPixelRegion' and rng.chance(0.3):
+            # the documented ``origin`` option: the vertices are given
+            # relative to it (the region then holds the menu's vertices, up
+            # to the rounding of (v - o) + o, far inside the tolerance)
+            from regions import PixCoord
+            ox, oy = rng.pick([(4.0, 2.5), (-3.0, 10.0), (0.5, 0.0)])
+            v = params['vertices']
+            params['vertices'] = PixCoord(v.x - ox, v.y - oy)
+            extra['origin'] = PixCoord(ox, oy)
         try:
             obj = getattr(regions, cls)(
-                **params, meta=build({'t': 'meta', 'v': meta}),
+                **params, **extra, meta=build({'t': 'meta', 'v': meta}),
                 visual=build({'t': 'visual', 'v': visual}))
         except Exception as exc:
             raise ValidRejected(cls, f'{cls}(**menu values {toks}) raised '
@@ -931,7 +1009,8 @@ class Machine:
         new_tok = new_dict = None
         if f in ('meta', 'visual'):
             items = perturb_items(rng, f, getattr(m, f).d)
-            if items is None or items_to_model(items) == getattr(m, f).d:
+            if items is None or _deq(items_to_model(items),
+                                     getattr(m, f).d):
                 items = draw_dict_items(rng, f)
             val = build({'t': f, 'v': items})
             new_dict = MDict(f, items_to_model(items))
@@ -1563,12 +1642,16 @@ class Machine:
             return
         self.stats['eq_true' if pred else 'eq_false'] += 1
         if bool(ab) != pred:
+            tag = ''
+            if _has_array_entry(A) or _has_array_entry(B):
+                tag = 'array-valued-entry:' + (
+                    'equal-expected' if pred else 'unequal-expected')
             self.violation(
                 'V3-eq-model', f'{where}: a==b is {ab}, the model says '
                 f'{pred} (a={A!r} meta={getattr(A, "meta", None)} '
                 f'visual={getattr(A, "visual", None)}; b={B!r} '
                 f'meta={getattr(B, "meta", None)} '
-                f'visual={getattr(B, "visual", None)})', cls=cls)
+                f'visual={getattr(B, "visual", None)})', cls=cls, value=tag)
 
     def check_eq(self, a, rng):
         S = self.slots[a]
